@@ -296,55 +296,80 @@ class Scripted:
         return self._load()
 
 
+class _Gate:
+    """awaitable on which a hand-driven coroutine is parked until the harness resumes it"""
+
+    def __await__(self):
+        yield self
+
+
+class _Yield:
+    """a bare suspension point (what `asyncio.sleep(0)` does); works under any driver"""
+
+    def __await__(self):
+        yield
+
+
 class SyncProxy:
     """what the reloader is given: counts calls, records loaded documents, lets the harness hold a
-    call (overlapping checks) and change the source right after the first source call of a check"""
+    call (overlapping checks) and change the source right after the first source call of a check.
+    `etag`/`load` are plain functions (the constructor primes with `etag()`); when two checks are
+    interleaved as coroutines (`env.coop`) they return an awaitable parked on a gate instead."""
 
     def __init__(self, env: "Env", inner):
         self.env, self.inner = env, inner
+
+    def _etag(self):
+        try:
+            return self.inner.etag()
+        finally:
+            self.env.first_call_done()
+
+    def _load(self):
+        try:
+            d = self.inner.load()
+            self.env.loaded_now.append(marker(d))
+            return d
+        finally:
+            self.env.first_call_done()
+
+    async def _parked(self, fn):
+        await _Gate()
+        return fn()
 
     def etag(self):
         self.env.etag_calls += 1
+        if self.env.coop:
+            return self._parked(self._etag)
         self.env.gate()
-        try:
-            return self.inner.etag()
-        finally:
-            self.env.first_call_done()
+        return self._etag()
 
     def load(self):
         self.env.load_calls += 1
+        if self.env.coop:
+            return self._parked(self._load)
         self.env.gate()
-        try:
-            d = self.inner.load()
-            self.env.loaded_now.append(marker(d))
-            return d
-        finally:
-            self.env.first_call_done()
+        return self._load()
 
 
-class AsyncProxy:
-    def __init__(self, env: "Env", inner):
-        self.env, self.inner = env, inner
-
+class AsyncProxy(SyncProxy):
     async def etag(self):
         self.env.etag_calls += 1
-        self.env.gate()
-        await asyncio.sleep(0)
-        try:
-            return self.inner.etag()
-        finally:
-            self.env.first_call_done()
+        if self.env.coop:
+            await _Gate()
+        else:
+            self.env.gate()
+        await _Yield()
+        return self._etag()
 
     async def load(self):
         self.env.load_calls += 1
-        self.env.gate()
-        await asyncio.sleep(0)
-        try:
-            d = self.inner.load()
-            self.env.loaded_now.append(marker(d))
-            return d
-        finally:
-            self.env.first_call_done()
+        if self.env.coop:
+            await _Gate()
+        else:
+            self.env.gate()
+        await _Yield()
+        return self._load()
 
 
 _env_counter = itertools.count()
@@ -361,6 +386,7 @@ class Env:
         self.loaded_now: list[str] = []
         self.pending_mid: list | None = None
         self.gates: dict[int, Any] = {}
+        self.coop = False
         self.clock_us = NOW0
         self.u = 0.0
         self.u_by_thread: dict[int, float] = {}
@@ -526,7 +552,7 @@ class Concretizer:
             sched = []
             for it in e["sched"]:
                 sched.append({"t": it} if isinstance(it, int) else {"src": [self.src(m) for m in it["src"]]})
-            return {"op": "conc", "checks": [{"force": bool(c.get("force")), "u": list(c.get("u", [0, 1]))} for c in e["checks"]],
+            return {"op": "conc", "mode": e.get("mode", "threads"), "checks": [{"force": bool(c.get("force")), "u": list(c.get("u", [0, 1]))} for c in e["checks"]],
                     "sched": sched}
         return {"op": "src", "ops": [self.src(e)]}
 
@@ -534,7 +560,7 @@ class Concretizer:
 def strip_content(op: Any) -> Any:
     """drop the bulky fields the driver does not read"""
     if isinstance(op, dict):
-        return {k: strip_content(v) for k, v in op.items() if k not in ("content", "pad", "mode")}
+        return {k: strip_content(v) for k, v in op.items() if k not in ("content", "pad")}
     if isinstance(op, list):
         return [strip_content(x) for x in op]
     return op
@@ -543,15 +569,75 @@ def strip_content(op: Any) -> Any:
 # ----------------------------------------------------------------------------- running a case on the real code
 
 
+def drive(coro):
+    """run a coroutine to completion by hand (no event loop): every suspension is resumed at once"""
+    while True:
+        try:
+            coro.send(None)
+        except StopIteration as stop:
+            return stop.value
+
+
 def call_check(rl: HotReloader, force: bool, mode: str):
     try:
         if mode == "async":
             r = asyncio.run(rl.check_and_reload_async(force=force))
+        elif mode == "drive":
+            r = drive(rl.check_and_reload_async(force=force))
         else:
             r = rl.check_and_reload(force=force)
     except Exception as e:  # noqa: BLE001
         return "raised:" + type(e).__name__
     return r if isinstance(r, bool) else "nonbool:" + repr(r)[:30]
+
+
+def run_tasks(env: Env, rl: HotReloader, op: dict) -> list:
+    """two (or n) overlapping `check_and_reload_async` coroutines on one thread, resumed in the order
+    of the schedule; a coroutine is parked inside the source call it is making"""
+    checks = op["checks"]
+    n = len(checks)
+    coros: list = [None] * n
+    state = ["new"] * n
+    results: list = [None] * n
+
+    def advance(i: int) -> None:
+        if state[i] == "done":
+            return
+        if state[i] == "new":
+            coros[i] = rl.check_and_reload_async(force=checks[i]["force"])
+        env.u = checks[i]["u"][0] / checks[i]["u"][1]
+        while True:
+            try:
+                y = coros[i].send(None)
+            except StopIteration as stop:
+                r = stop.value
+                results[i] = r if isinstance(r, bool) else "nonbool:" + repr(r)[:30]
+                state[i] = "done"
+                return
+            except Exception as e:  # noqa: BLE001
+                results[i] = "raised:" + type(e).__name__
+                state[i] = "done"
+                return
+            if isinstance(y, _Gate):
+                state[i] = "blocked"
+                return
+
+    env.coop = True
+    try:
+        for it in op["sched"]:
+            if "src" in it:
+                for o in it["src"]:
+                    env.apply(o)
+            else:
+                advance(it["t"])
+        for i in range(n):
+            guard = 0
+            while state[i] != "done" and guard < 8:
+                advance(i)
+                guard += 1
+    finally:
+        env.coop = False
+    return results
 
 
 def run_conc(env: Env, rl: HotReloader, op: dict) -> list:
@@ -618,6 +704,17 @@ def run_conc(env: Env, rl: HotReloader, op: dict) -> list:
     return results
 
 
+_GUARD: list = []
+
+
+def _guard() -> Guard:
+    """one real Guard for the whole run (its constructor allocates an event loop); every history resets
+    its policy and gives it a fresh cache"""
+    if not _GUARD:
+        _GUARD.append(Guard(dict(POLICY0), cache=CountingCache()))
+    return _GUARD[0]
+
+
 def to_us(x: float) -> int:
     return int(round(x * 1e6))
 
@@ -634,7 +731,10 @@ def execute(case: dict, tmpdir: str) -> tuple[list[dict], list[dict], list[dict]
             env.apply(o)
         cfg = CFGS[case["cfg"]]
         cache = CountingCache()
-        guard = Guard(dict(POLICY0), cache=cache)
+        guard = _guard()
+        guard.cache = cache
+        guard.set_policy(dict(POLICY0))
+        cache.clears = 0
         rl = HotReloader(guard, env.proxy, initial_load=bool(case["initial_load"]), poll_interval=None,
                          backoff_min=cfg["backoff_min"] / 1e6, backoff_max=cfg["backoff_max"] / 1e6,
                          jitter_ratio=cfg["ratio"][0] / cfg["ratio"][1])
@@ -664,7 +764,7 @@ def execute(case: dict, tmpdir: str) -> tuple[list[dict], list[dict], list[dict]
                 env.first_call_done()   # no source call was made: the change happens after the check
             elif k == "conc":
                 env.pending_mid = None
-                results = run_conc(env, rl, op)
+                results = run_tasks(env, rl, op) if op.get("mode") == "tasks" else run_conc(env, rl, op)
             r = snap(results)
             # the cache really is emptied exactly when clear() was called
             gone = cache.get("sentinel") is None
@@ -720,7 +820,8 @@ def ev_check(force=False, mode="sync", mid=None, settle=False) -> dict:
 W = {"e": "write", "valid": True}
 INV = {"e": "write", "valid": False}
 DEL = {"e": "delete"}
-SETTLE = [{"e": "advance", "dt": SETTLE_DT}, ev_check(settle=True), ev_check(settle=True), ev_check(settle=True)]
+SETTLE = [{"e": "advance", "dt": SETTLE_DT}, ev_check(mode="drive", settle=True), ev_check(mode="drive", settle=True),
+          ev_check(mode="drive", settle=True)]
 
 
 def kind_fault(kindname: str) -> dict:
@@ -745,11 +846,11 @@ def orders(n_a: int = 3, n_b: int = 3) -> list[list[int]]:
 ORDERS = orders()
 
 
-def conc_event(order_idx: int, forces=(False, False), src_at: int | None = None, src=None) -> dict:
+def conc_event(order_idx: int, forces=(False, False), src_at: int | None = None, src=None, mode: str = "threads") -> dict:
     sched: list = list(ORDERS[order_idx % len(ORDERS)])
     if src_at is not None:
         sched.insert(src_at, {"src": [src or W]})
-    return {"e": "conc", "checks": [{"force": bool(forces[0])}, {"force": bool(forces[1])}], "sched": sched}
+    return {"e": "conc", "mode": mode, "checks": [{"force": bool(forces[0])}, {"force": bool(forces[1])}], "sched": sched}
 
 
 def alphabet(kindname: str) -> list[dict]:
@@ -770,7 +871,8 @@ def with_params(hist: list[dict], salt: int) -> list[dict]:
         elif e["e"] == "X":
             c += 1
             k = c * 7 + salt
-            ev = conc_event(k, forces=((k // 20) % 2 == 1, (k // 40) % 3 == 2), src_at=(k % 9 if k % 9 < 7 else None))
+            ev = conc_event(k, forces=((k // 20) % 2 == 1, (k // 40) % 3 == 2), src_at=(k % 9 if k % 9 < 7 else None),
+                            mode="threads" if c % 8 == 0 else "tasks")
             for j, ch in enumerate(ev["checks"]):
                 ch["u"] = US[(c + j) % len(US)]
             out.append(ev)
@@ -807,7 +909,7 @@ def enum_cases(kind: str, full_len: int, sample: dict[int, int], seed: int):
                               label=f"enum:{kind}:{''.join(map(str, seq))}:il={int(il)}")
 
 
-def conc_cases(kind: str, stride: int, seed: int):
+def conc_cases(kind: str, stride: int, seed: int, mode: str = "threads"):
     """two overlapping checks: every order of their source calls × forced flags × a source change at
     every position, in three contexts (fresh / after a failure inside the back-off window / after a load)"""
     contexts = [[], [INV, ev_check()], [ev_check(), W]]
@@ -820,8 +922,8 @@ def conc_cases(kind: str, stride: int, seed: int):
                         idx += 1
                         if stride > 1 and (idx + seed) % stride:
                             continue
-                        ev = conc_event(oi, forces, src_at, src)
-                        yield mk_case(kind, ctx + [ev], idx % 2 == 0, idx, idx, label=f"conc:{kind}:{ci}:{oi}:{forces}:{src_at}")
+                        ev = conc_event(oi, forces, src_at, src, mode)
+                        yield mk_case(kind, ctx + [ev], idx % 2 == 0, idx, idx, label=f"conc-{mode}:{kind}:{ci}:{oi}:{forces}:{src_at}")
 
 
 def random_cases(r: random.Random, n: int, maxlen: int):
@@ -858,7 +960,8 @@ def random_cases(r: random.Random, n: int, maxlen: int):
                 hist.append({"e": "advance", "dt": r.choice([125_000, 250_000, 500_000, 1_000_000, 2_000_000, 8_000_000])})
             elif x < 0.56:
                 hist.append(conc_event(r.randrange(len(ORDERS)), (r.random() < 0.3, r.random() < 0.3),
-                                       r.choice([None, None, 0, 1, 2, 3, 4, 5, 6]), r.choice([W, W, INV, DEL])))
+                                       r.choice([None, None, 0, 1, 2, 3, 4, 5, 6]), r.choice([W, W, INV, DEL]),
+                                       "threads" if r.random() < 0.3 else "tasks"))
             else:
                 mid = []
                 if r.random() < 0.25:
@@ -883,21 +986,24 @@ def corpus_cases() -> list[tuple[str, dict]]:
 def all_cases(run: lib.Run, scale: int = 1):
     quick = run.tier == "quick"
     s = run.seed
+    others = [k for k in KINDS if k != "custom"]
     if quick:
-        yield from enum_cases("custom", 3, {4: 3 if scale == 1 else 1}, s)
-        for kind in KINDS:
-            if kind != "custom":
-                yield from enum_cases(kind, 2, {3: 5, 4: 60} if scale == 1 else {3: 1, 4: 12}, s)
-        yield from conc_cases("custom", 2 if scale == 1 else 1, s)
-        for kind in ("custom_async", "file", "http_etag", "http_plain", "s3_vid"):
-            yield from conc_cases(kind, 16 if scale == 1 else 4, s)
+        yield from enum_cases("custom", 3, {4: 4 if scale == 1 else 1}, s)
+        for kind in others:
+            yield from enum_cases(kind, 2, {3: 5, 4: 60} if scale == 1 else {3: 1, 4: 12}, s)
+        yield from conc_cases("custom", 1, s, "tasks")
+        yield from conc_cases("custom", 4 if scale == 1 else 1, s, "threads")
+        for kind in others:
+            yield from conc_cases(kind, 8 if scale == 1 else 2, s, "tasks")
+        for kind in ("custom_async", "file", "http_etag", "s3_vid"):
+            yield from conc_cases(kind, 24 if scale == 1 else 6, s, "threads")
     else:
         yield from enum_cases("custom", 4, {5: 8 if scale == 1 else 2}, s)
+        for kind in others:
+            yield from enum_cases(kind, 3, {4: 6, 5: 80} if scale == 1 else {4: 2, 5: 25}, s)
         for kind in KINDS:
-            if kind != "custom":
-                yield from enum_cases(kind, 3, {4: 6, 5: 80} if scale == 1 else {4: 2, 5: 25}, s)
-        for kind in KINDS:
-            yield from conc_cases(kind, 1 if kind in ("custom", "file", "http_etag") else 4, s)
+            yield from conc_cases(kind, 1, s, "tasks")
+            yield from conc_cases(kind, 1 if kind in ("custom", "file", "http_etag") else 6, s, "threads")
     r = random.Random(run.seed * 7919 + 10)
     yield from random_cases(r, (400 if quick else 4000) * scale, 40)
 
@@ -1077,7 +1183,7 @@ def check(run: lib.Run, audit: dict) -> int:
             run_cases(run, tally, all_cases(run, scale=4), tmpdir)   # correspondence broke: widen the search for a failing input
         # 3. verdicts
         if run.spec_failures:
-            v = min(run.spec_failures, key=lambda x: len(x["case"]["history"]))
+            v = min(run.spec_failures, key=lambda x: (any(e["e"] == "conc" for e in x["case"]["history"]), len(x["case"]["history"])))
             v = shrink(v, tmpdir) if v["bad"] else v
             if not v["bad"]:
                 v = run.spec_failures[0]
@@ -1085,7 +1191,7 @@ def check(run: lib.Run, audit: dict) -> int:
                                                            " (Rbacx/Spec/Reload.lean, evaluated by the Lean driver)") | {"more": len(run.spec_failures) - 1})
             violations.append((path, True))
         elif run.disagreements and not violations:
-            v = min(run.disagreements, key=lambda x: len(x["case"]["history"]))
+            v = min(run.disagreements, key=lambda x: (any(e["e"] == "conc" for e in x["case"]["history"]), len(x["case"]["history"])))
             path = run.write_replay("correspondence", replay_payload(v, "model (Rbacx.Reloader.wcheck/stepThread over worldSource) and implementation "
                                                                      "disagree on the observable trace; theorems Rbacx.C10.* no longer speak about this code")
                                     | {"count": len(run.disagreements)})
